@@ -110,9 +110,11 @@ namespace ratio
         else if (std::all_of(xprs.cbegin(), xprs.cend(), [](const arith_expr &aex)
                              { return aex->get_type().get_name() == REAL_KEYWORD; }))
             return *types.at(REAL_KEYWORD);
-        else if (std::all_of(xprs.cbegin(), xprs.cend(), [this](const arith_expr &aex)
-                             { return aex->get_type().get_name() == TP_KEYWORD || aex->l.vars.empty() || lra_th.lb(aex->l) == lra_th.ub(aex->l); }))
-            return *types.at(TP_KEYWORD);
+        else if (std::any_of(xprs.cbegin(), xprs.cend(), [](const arith_expr &aex)
+                             { return aex->get_type().get_name() == TP_KEYWORD; }) &&
+                 std::all_of(xprs.cbegin(), xprs.cend(), [](const arith_expr &aex)
+                             { return aex->get_type().get_name() == TP_KEYWORD || aex->l.vars.empty(); }))
+            return *types.at(TP_KEYWORD); // time points and constants (an expression over LRA variables is not a time-point expression, whatever its bounds)..
         else
             return *types.at(REAL_KEYWORD);
     }
